@@ -141,7 +141,9 @@ func runDeepMixed(r *rc) {
 	plan := func(period int, route string) []int {
 		switch {
 		case r.Thorough():
-			return []int{30000, 100000, 400000}
+			// 3*10^4 is not used here: a parser may count one level per cycle rather than per layer, so
+			// only depths >= period x bound imply the twin's reject verdict (if>block x 30000 is accepted, harmlessly)
+			return []int{100000, 400000}
 		case period <= 2:
 			return []int{100000}
 		case route == "Compile":
@@ -214,7 +216,7 @@ func runDeepMixed(r *rc) {
 	r.Bound("layers", fmt.Sprint(len(mixLayers)))
 	r.Bound("cycle_period", fmt.Sprintf("<= %d (%d cycles)", maxPeriod, len(cycles)))
 	if r.Thorough() {
-		r.Bound("depths", "3*10^4, 10^5, 4*10^5 for every cycle and route")
+		r.Bound("depths", "10^5, 4*10^5 for every cycle and route")
 	} else {
 		r.Bound("depths", "10^5 for period <= 2 through every route; 3*10^4 for period 3 through Compile")
 	}
